@@ -127,8 +127,8 @@ func main() {
 			time.Sleep(10 * time.Second)
 			if h := simrt.Heartbeat.Load(); h != last {
 				last, idle = h, 0
-			} else if idle++; idle >= 18 {
-				fmt.Fprintln(os.Stderr, "INFRA: worker made no scheduler step for 180 s")
+			} else if idle++; idle >= 30 {
+				fmt.Fprintln(os.Stderr, "INFRA: worker made no scheduler step for 300 s")
 				os.Exit(2)
 			}
 		}
